@@ -403,7 +403,7 @@ pub fn check_b(t: &Trace) -> Option<V> {
             if let Some(r) = s.refc {
                 if r <= s.c0 {
                     return v(
-                        format!("C26:b:oog-unjustified:{}", s.opname),
+                        "C26:b:oog-unjustified",
                         format!("{at}: OutOfGas although reference cost {r} <= $cgas {}", s.c0),
                     )
                 }
@@ -424,7 +424,7 @@ pub fn check_b(t: &Trace) -> Option<V> {
         }
         if cost > s.c0 {
             return v(
-                format!("C26:b:missed-oog:{}", s.opname),
+                "C26:b:missed-oog",
                 format!("{at}: charged {cost} with only $cgas {} available", s.c0),
             )
         }
